@@ -7,6 +7,7 @@ Mirrors, as they are in /repo:
   * `redun/task.py::Task.options`                      → `TaskV.options`
   * `redun/task.py::Task.export_options`               → `TaskV.exportOptions`
   * `redun/task.py::Task.get_task_options`             → `taskOptions`
+  * `redun/task.py::Task.__getstate__/__setstate__`    → `TaskV.roundtrip` (pickle / cache round trip of a Task value)
   * `redun/task.py::Task.__call__`                     → a `Call` (the expression carries the called variant's
                                                          `_task_options_override` and `_export_options`; the job's
                                                          task is looked up in the registry by name = `reg`)
@@ -204,20 +205,29 @@ def TaskV.exportOptions (t : TaskV) (upd : Dict Val) : Except Err TaskV :=
   let ex := if "cache" ∈ ex then ex ++ ["cache_scope"] else ex
   validate { base := t.base, over := dmerge t.over upd, exports := ex }
 
+/-- A pickle round trip of a Task VALUE (`Task.__getstate__` / `__setstate__`; also what a cache hit of a job that
+returned the task does): `_task_options_override` and `_export_options` travel in the state, `_task_options_base`
+is taken from the task registered under the same name (`reg`), then `_validate` runs. -/
+def TaskV.roundtrip (t reg : TaskV) : Except Err TaskV :=
+  validate { base := reg.base, over := t.over, exports := t.exports }
+
 inductive TaskOp where
   | options (upd : Dict Val)
   | exportOptions (upd : Dict Val)
+  | roundtrip
   deriving Repr, Inhabited
 
-def applyOp (t : TaskV) : TaskOp → Except Err TaskV
+/-- `reg`: the registered task the chain of calls started from -/
+def applyOp (reg t : TaskV) : TaskOp → Except Err TaskV
   | .options u => t.options u
   | .exportOptions u => t.exportOptions u
+  | .roundtrip => t.roundtrip reg
 
-def applyOps (t : TaskV) : List TaskOp → Except Err TaskV
+def applyOps (reg t : TaskV) : List TaskOp → Except Err TaskV
   | [] => .ok t
   | op :: ops => do
-    let t' ← applyOp t op
-    applyOps t' ops
+    let t' ← applyOp reg t op
+    applyOps reg t' ops
 
 /-- `Task.get_task_options` -/
 def taskOptions (t : TaskV) : Dict Val := dmerge t.base t.over
